@@ -27,6 +27,13 @@ def configs(tier, seed):
            S("Quinoa", "SiltClay", seed=seed + 14, gw={"water_table": "Y", "method": "Variable", "dates": ["2001/04/20", "2001/07/01", "2001/10/30"], "values": [2.0, 0.8, 1.5]}),
            S("Tef", "Paddy", seed=seed + 15, field={"bunds": True, "z_bund": 0.1, "bund_water": 20}, fallow={"mulches": True, "mulch_pct": 50, "f_mulch": 0.5}, off_season=True, lead=10, iwc={"value": ["FC", "FC"], "depth_layer": [1, 2]}),
            S("Soybean", seed=seed + 16, soil_spec=L.LAYERED_SOILS["three_layer"], iwc={"wc_type": "Pct", "method": "Depth", "depth_layer": [0.2, 0.9], "value": [80, 30]})]
+    # every setting of the management objects EFFECTIVE in the run (a consumed / rescaled setting then changes the results): bunds low enough
+    # to overflow on a slowly draining soil, initial bund water, curve-number adjustment with runoff, mulches, a water table in the root zone
+    big = L.storm_events(2001, (4, 20), (60, 35, 90, 25))
+    out += [S("Maize", seed=seed + 17, soil_spec=L.TIGHT_SOIL, field={"bunds": True, "z_bund": 0.02, "bund_water": 15}, fallow={"bunds": True, "z_bund": 0.01, "bund_water": 5},
+              events=big, off_season=True, lead=12, irr={"method": 5, "kw": {"depth": 4, "AppEff": 80, "WetSurf": 50, "MaxIrrSeason": 150}}),
+            S("Barley", "ClayLoam", seed=seed + 18, events=big, field={"curve_number_adj": True, "curve_number_adj_pct": 25, "mulches": True, "mulch_pct": 60, "f_mulch": 0.7},
+              gw={"water_table": "Y", "dates": ["2001/04/20", "2001/08/01"], "values": [1.1, 0.7]}, irr={"method": 1, "kw": {"SMT": [40, 55, 70, 35], "MaxIrr": 12, "AppEff": 75}})]
     if tier == "thorough":
         out += L.diverse(rnd, 60, focus="no_restrictive")
     return out
